@@ -214,6 +214,9 @@ func checkCase(c *caseSpec, in []inEntry, inputTar []byte, b *built) (v verdicts
 		if sb.Format != wantFmt {
 			v.add("footer-kind", "footer says %v, built as %s", sb.Format, c.Opts.Scheme)
 		}
+		if sb.ExternalTOCTrailing > 0 {
+			v.add("external-toc-not-one-member", "the TOC blob handed out by WriteTOCTo has %d bytes after its first gzip member (consumers read the first member only)", sb.ExternalTOCTrailing)
+		}
 		if sb.Version != 1 {
 			v.add("toc-version", "version %d", sb.Version)
 		}
